@@ -22,6 +22,7 @@ ShaNi == Variant \in {"sse_t2", "sse_t3", "avx2_t2"}      \* SHA-NI 2-lane manag
 SU(n) == [fam |-> "simple", L |-> n, blk |-> 1, pf |-> "", fl |-> 1, ss |-> FALSE]
 ZU(n) == [fam |-> "simple", L |-> n, blk |-> 4, pf |-> "", fl |-> 1, ss |-> FALSE]       \* ZUC-EEA3: whole keystream words
 DU(n, f, s) == [fam |-> "simple", L |-> n, blk |-> 1, pf |-> "", fl |-> f, ss |-> s]     \* DOCSIS: whole blocks in the lanes
+CU(n, t) == [fam |-> "simple", L |-> n, blk |-> 160, pf |-> t, fl |-> 16, ss |-> FALSE]   \* AES-CBCS 1:9: kernel steps of 160 bytes
 HU(n, b) == [fam |-> "hmac", L |-> n, blk |-> b, pf |-> "", fl |-> 1, ss |-> FALSE]
 PU(n, rule) == [fam |-> "phased", L |-> n, blk |-> 16, pf |-> rule, fl |-> 1, ss |-> FALSE]
 MU(n, b) == [fam |-> "shamb", L |-> n, blk |-> b, pf |-> "", fl |-> 1, ss |-> FALSE]
@@ -29,7 +30,7 @@ CbcUnits == {"cbc16", "cbc24", "cbc32"}
 CfbUnits == {"cfb16", "cfb24", "cfb32"}
 DesUnits == {"des_e", "des_d", "des3_e", "des3_d"}
 UnitNames == CbcUnits \cup CfbUnits \cup DesUnits \cup {"hmac1", "hmac224", "hmac256", "hmac384", "hmac512", "hmacmd5"}
-             \cup {"zuc128", "zuc256"} \cup {"ccm128", "ccm256"} \cup {"docsis128", "docsis256", "docsisdes_e", "docsisdes_d"} \cup {"xcbc", "cmac128", "cmac256"} \cup {"sha1", "sha224", "sha256", "sha384", "sha512"}
+             \cup {"zuc128", "zuc256", "cbcs"} \cup {"ccm128", "ccm256"} \cup {"docsis128", "docsis256", "docsisdes_e", "docsisdes_d"} \cup {"xcbc", "cmac128", "cmac256"} \cup {"sha1", "sha224", "sha256", "sha384", "sha512"}
 UnitsFor ==
     [un \in UnitNames |->
        CASE un \in CbcUnits -> SU(IF Variant = "avx512_t2" THEN 16 ELSE 8)
@@ -41,6 +42,7 @@ UnitsFor ==
                 HU(IF Avx512 THEN 16 ELSE IF ShaNi THEN 2 ELSE IF Avx2 THEN 8 ELSE 4, 64)
          [] un \in {"docsis128", "docsis256"} -> DU(IF Variant = "avx512_t2" THEN 16 ELSE 8, 16, TRUE)   \* AES-CBC lanes, encrypt
          [] un \in {"docsisdes_e", "docsisdes_d"} -> DU(IF Avx512 THEN 16 ELSE 1, 8, FALSE)
+         [] un = "cbcs" -> (IF Variant = "avx512_t2" THEN CU(12, "") ELSE IF Avx512 \/ Avx2 THEN CU(8, "") ELSE CU(4, "tienew"))
          [] un \in {"zuc128", "zuc256"} -> ZU(IF Avx512 THEN 16 ELSE IF Avx2 THEN 8 ELSE 4)
          [] un = "sha1" -> MU(IF Avx512 THEN 16 ELSE IF Avx2 THEN 8 ELSE IF Variant = "sse_t1" THEN 4 ELSE 2, 64)
          [] un \in {"sha224", "sha256"} -> MU(IF Avx512 THEN 16 ELSE IF ShaNi THEN 2 ELSE IF Avx2 THEN 8 ELSE 4, 64)
@@ -64,6 +66,7 @@ CipherUnit(su) ==
       [] su[1] = 6 -> "custom"
       [] su[1] = 14 -> (IF su[2] = 16 THEN "zuc128" ELSE "zuc256")
       [] su[1] = 4 /\ su[3] = 1 /\ su[4] # 21 -> (IF su[2] = 16 THEN "docsis128" ELSE "docsis256")   \* (with CRC32: own managers, not modelled)
+      [] su[1] = 17 /\ su[3] = 1 -> "cbcs"
       [] su[1] = 8 -> (IF su[3] = 1 THEN "docsisdes_e" ELSE "docsisdes_d")
       [] OTHER -> "sync"
 HashUnit(su) ==
